@@ -396,10 +396,10 @@ ocp.set_der(v, a)
         results = F(*v_expressions,fixed_parameters,spline_traj,time)
         results = self.eval(stage, results)
 
-        # 'control-' and include_first=False: leave out the last / first grid point
-        if not include_last:
+        # 'control-' and include_first=False: leave out the last / first grid point (unless an offset already did)
+        if not include_last and max_offset==0:
             time, results = time[:-1], results[:,:-1]
-        if not include_first:
+        if not include_first and min_offset==0:
             time, results = time[1:], results[:,1:]
         return time, results
 
@@ -408,6 +408,8 @@ ocp.set_der(v, a)
     def add_constraints(self, stage, opti):
         self.add_constraints_before(stage, opti)
         assert "integrator" not in stage._constraints
+        if len(stage._constraints.get("integrator_roots", []))>0:
+            raise Exception("SplineMethod does not support constraints on grid='integrator_roots'")
 
         self.opti_advanced = self.opti.advanced
         # min/max bounds of the time grid
@@ -444,7 +446,9 @@ ocp.set_der(v, a)
         ubs = defaultdict(list)
         canons = defaultdict(list)
         for c, meta, args in stage._constraints["control"]:
-            key = (args["refine"],args["group_refine"],args["include_first"],args["include_last"])
+            # Constraints are stacked and sampled together: only those that live on the same grid points
+            offsets = tuple(sorted(set(stage._offsets[s][1] for s in ca.symvar(c) if s in stage._offsets)))
+            key = (args["refine"],args["group_refine"],args["include_first"],args["include_last"],offsets)
             (lb,canon,ub), mc = self.constraint_inspector.canon(c)
 
             lbs[key].append(lb)
@@ -455,12 +459,12 @@ ocp.set_der(v, a)
 
         # Loop over lumps
         for k in keys:
-            (refine,group_refine,include_first,include_last) = k
+            (refine,group_refine,include_first,include_last,_) = k
             lb = ca.vcat(lbs[k])
             ub = ca.vcat(ubs[k])
             canon = ca.vcat(canons[k])
 
-            _,results = self.grid_control(stage, canon, 'control', refine=refine)
+            _,results = self.grid_control(stage, canon, 'control', include_first=include_first, include_last=include_last, refine=refine)
             assert canon.is_column()
             canon_sym = MX.sym("canon_sym",canon.size1(),refine)
             # Do a grouping along refinement grid if requested
@@ -495,8 +499,6 @@ ocp.set_der(v, a)
                     self.opti.subject_to(self.eval(stage, results_max <= ub))
                     self.opti.subject_to(self.eval(stage, results_end <= ub))
             else:
-                # The first (t0) and last (tf) points can be excluded from a path constraint
-                results = results[:, (0 if include_first else 1):(results.shape[1] if include_last else results.shape[1]-1)]
                 n = results.shape[1]
                 if n==0: continue
                 lb = ca.repmat(lb,1,n)
